@@ -1,0 +1,31 @@
+/* Verification hooks (guard MPIR_VERIF).  Declarations only: the receivers are
+   defined by the verification driver the library is linked into, so the
+   library gains no object file.  With the guard off the macros are empty.  */
+#ifndef __MPIR_VERIF_H__
+#define __MPIR_VERIF_H__
+
+#if defined (__cplusplus)
+extern "C" {
+#endif
+void __mpir_verif_hit (int id);
+void __mpir_verif_evt (int id, long a, long b, long c, long d);
+void __mpir_verif_point (int id);
+#if defined (__cplusplus)
+}
+#endif
+
+#define MPIR_VERIF_HIT(id)		__mpir_verif_hit (id)
+#define MPIR_VERIF_EVT(id,a,b,c,d)	__mpir_verif_evt ((id), (long) (a), (long) (b), (long) (c), (long) (d))
+#define MPIR_VERIF_POINT(id)		__mpir_verif_point (id)
+
+enum {
+  MPIR_VERIF_MUL_MUL_N = 1, MPIR_VERIF_MUL_SQR, MPIR_VERIF_MUL_BASECASE, MPIR_VERIF_MUL_BASECASE_CHUNKED,
+  MPIR_VERIF_MUL_FFT, MPIR_VERIF_MUL_TOOM8H, MPIR_VERIF_MUL_TOOM4, MPIR_VERIF_MUL_TOOM53, MPIR_VERIF_MUL_TOOM42,
+  MPIR_VERIF_MUL_TOOM3, MPIR_VERIF_MUL_TOOM32, MPIR_VERIF_MUL_PIECES,
+  MPIR_VERIF_FFT_TRUNC = 20, MPIR_VERIF_FFT_MFA,
+  MPIR_VERIF_SB_DIV_N1_EQ_D1 = 30, MPIR_VERIF_SB_DIV_ADDBACK, MPIR_VERIF_3BY2_SECOND_ADJUST, MPIR_VERIF_TDIV_QR_QUOTIENT_TOO_LARGE,
+  MPIR_VERIF_MT_REFILL = 40,
+  MPIR_VERIF_PT_TMP_REENTRANT_ALLOC = 50, MPIR_VERIF_PT_MPZ_REALLOC
+};
+
+#endif
